@@ -137,6 +137,29 @@ func (r *ruleSpec) filterFails(key string, size int64, tags map[string]string, p
 	return fails
 }
 
+// tagMiss classifies the first tag predicate of the rule that the tag set does
+// not satisfy (for violation signatures only).
+func (r *ruleSpec) tagMiss(tags map[string]string) string {
+	for _, t := range r.tagPreds() {
+		v, ok := tags[t.K]
+		if ok && v == t.V {
+			continue
+		}
+		d := "tag-value-differs"
+		if !ok {
+			d = "tag-key-absent"
+			if len(tags) == 0 {
+				d = "object-untagged"
+			}
+		}
+		if t.V == "" {
+			d += ":empty-valued-predicate"
+		}
+		return d
+	}
+	return ""
+}
+
 // dueAfterDays: S3 rounds day-based lifecycle instants up to the next midnight
 // UTC: created 2014-01-15T10:30Z with Days=3 is due 2014-01-19T00:00Z.
 func dueAfterDays(t time.Time, days int32) time.Time {
